@@ -311,6 +311,12 @@ func (this *partition) loadedRaft() *raft.RaftGroup {
 }
 
 func (this *partition) addNode(nodeId uint64) {
+	if this.isOnNode(nodeId) {
+		// Proposed a second time: the allocator reacts to the membership
+		// changes again when a restart replays them, before the replay has
+		// reached the change that added the node
+		return
+	}
 	this.meta.NodeIds = append(this.meta.NodeIds, nodeId)
 
 	if nodeId == this.raftTransport.NodeId() {
